@@ -269,12 +269,13 @@ func countCLI(deps []core_domain.CodeDataStruct, want map[string]int) string {
 type JParam struct {
 	Type string `json:"type"`
 	Name string `json:"name"`
+	Ann  string `json:"ann,omitempty"` // annotation of the parameter (not of the method)
 }
 
 // JReturn is one return site: inside `if (Cond) { return Expr; }` when Cond != "", the
 // closing return of the body otherwise.
 type JStmt struct {
-	Kind string `json:"kind"`           // "ifreturn", "ifelse", "filler"
+	Kind string `json:"kind"`           // "ifreturn", "ifelse", "filler", "forreturn", "whilereturn", "tryreturn", "switchreturn"
 	Cond string `json:"cond,omitempty"` // condition text
 	Expr string `json:"expr,omitempty"` // expression kind of the (first) return
 	Else string `json:"else,omitempty"` // expression kind of the else-branch return (ifelse)
@@ -291,6 +292,8 @@ type JMethod struct {
 	Stmts    []JStmt  `json:"stmts,omitempty"`
 	Last     string   `json:"last,omitempty"` // expression kind of the closing return ("" = none, "bare" = `return;`)
 	Abstract bool     `json:"abstract,omitempty"`
+	Generic  bool     `json:"generic,omitempty"` // `<T>` between the modifiers and the return type
+	Before   []string `json:"before,omitempty"`  // other members written before the method (fields, initialiser blocks)
 }
 
 type JClass struct {
@@ -309,13 +312,29 @@ type EvalCase struct {
 var (
 	baseNames   = []string{"Account", "Order", "Invoice", "Customer", "Report", "Ledger", "Parser", "Cart", "String", "Date"}
 	suffixes    = []string{"", "", "", "Helper", "Manager", "Util", "Utils", "Service", "ServiceImpl"}
+	// the word Util/Utils/Service also in front of and inside the name, not only at its end
+	prefixes = []string{"", "", "", "", "", "", "Util", "Utils", "Service"}
+	tails    = []string{"", "", "", "", "Helper", "Impl"}
 	mNames      = []string{"load", "save", "findUser", "getName", "setName", "compute", "resolve", "parseInput", "toText", "isReady", "build", "apply", "handle", "fetchAll", "lookup", "getValue"}
 	javaPkgs    = []string{"com.acme", "com.acme.core", "com.acme.web", "org.demo", "app"}
 	nullKinds   = map[string]bool{"null": true, "condNullThen": true, "condNullElse": true}
 	refExprs    = []string{"lit", "field", "lit2", "condPlain", "null", "condNullThen", "condNullElse", "null"}
+	// expressions that mention null without being able to return it (feature return_mentions_null)
+	refMentions  = []string{"nullGuard", "nullText", "nullIdent", "nullArgCmp"}
+	boolMentions = []string{"eqNull", "neNull"}
+	intMentions  = []string{"nullCount"}
 	conds       = []string{"flag", "count > 0", "value == null", "value != null", "count == 0 && flag"}
 	fillers     = []string{"count = count + 2;", "count++;", "value = \"w\";", "flag = !flag;"}
-	annotations = []string{"@Nullable", "@CheckForNull", "@Nullable", "@CheckForNull", "@Deprecated", "@SuppressWarnings(\"unchecked\")"}
+	annotations = []string{"@Nullable", "@CheckForNull", "@Nullable", "@CheckForNull", "@Deprecated", "@SuppressWarnings(\"unchecked\")",
+		// names that only resemble the two nullability annotations, and the marker form with parentheses
+		"@NonNull", "@NotNullable", "@NullableDecl", "@Nullable()"}
+	// the two annotations written with their package (feature qualified_nullable_annotation)
+	qualifiedAnnotations = []string{"@javax.annotation.Nullable", "@javax.annotation.CheckForNull"}
+	nullAnnotations      = map[string]bool{"@Nullable": true, "@CheckForNull": true, "@Nullable()": true, "@javax.annotation.Nullable": true, "@javax.annotation.CheckForNull": true}
+	// members other than methods, written between the methods; %d is replaced by a number unique in the class
+	otherMembers = []string{"private int extra%d;", "@Nullable private String extra%d;", "@CheckForNull private static Object extra%d;", "private static int extra%d = 0;",
+		"static { count = %d; }", "private String extra%d = null;", "{ value = null; }", "private static final String extra%d = \"null\";"}
+	loopKinds = []string{"forreturn", "whilereturn", "tryreturn", "switchreturn"}
 )
 
 func permute(t *rapid.T, in []string, label string) []string {
@@ -333,8 +352,13 @@ func permute(t *rapid.T, in []string, label string) []string {
 // shrinking moves towards the plain variant.
 func stmtGen(ret string) *rapid.Generator[JStmt] {
 	return rapid.Custom(func(t *rapid.T) JStmt {
-		if rapid.IntRange(0, 4).Draw(t, "stmt") < 2 {
+		k := rapid.IntRange(0, 5).Draw(t, "stmt")
+		if k < 2 {
 			return JStmt{Kind: "filler", Text: rapid.SampledFrom(fillers).Draw(t, "filler")}
+		}
+		if k == 5 {
+			// a return inside a loop, a catch clause or a switch group: still "on some path"
+			return JStmt{Kind: rapid.SampledFrom(loopKinds).Draw(t, "nesting"), Cond: rapid.SampledFrom(conds).Draw(t, "cond"), Expr: retExpr(t, ret)}
 		}
 		return JStmt{Kind: "ifreturn", Cond: rapid.SampledFrom(conds).Draw(t, "cond"), Expr: retExpr(t, ret),
 			Bare: rapid.IntRange(0, 3).Draw(t, "bareIf") == 3}
@@ -342,7 +366,12 @@ func stmtGen(ret string) *rapid.Generator[JStmt] {
 }
 
 var paramGen = rapid.Custom(func(t *rapid.T) JParam {
-	return JParam{Type: rapid.SampledFrom([]string{"String", "int", "boolean", "Object"}).Draw(t, "ptype")}
+	p := JParam{Type: rapid.SampledFrom([]string{"String", "int", "boolean", "Object"}).Draw(t, "ptype")}
+	if (p.Type == "String" || p.Type == "Object") && rapid.IntRange(0, 5).Draw(t, "annotatedParam") == 5 {
+		// annotates the parameter, not the method
+		p.Ann = rapid.SampledFrom([]string{"@Nullable", "@CheckForNull"}).Draw(t, "paramAnnotation")
+	}
+	return p
 })
 
 func methodGen(abstractClass bool) *rapid.Generator[JMethod] {
@@ -373,8 +402,12 @@ func methodGen(abstractClass bool) *rapid.Generator[JMethod] {
 		mods = permute(t, mods, "perm")
 		ref := m.Ret == "String" || m.Ret == "Object"
 		if rapid.IntRange(0, 2).Draw(t, "annotated") == 2 {
-			a := rapid.SampledFrom(annotations).Draw(t, "annotation")
-			if !ref && (a == "@Nullable" || a == "@CheckForNull") {
+			pool := annotations
+			if !pbt.Excluded("qualified_nullable_annotation") {
+				pool = append(append([]string{}, annotations...), qualifiedAnnotations...)
+			}
+			a := rapid.SampledFrom(pool).Draw(t, "annotation")
+			if !ref && nullAnnotations[a] {
 				a = "@Deprecated"
 			}
 			pos := 0
@@ -382,10 +415,10 @@ func methodGen(abstractClass bool) *rapid.Generator[JMethod] {
 				pos = rapid.IntRange(0, len(mods)).Draw(t, "annotationPos")
 			}
 			mods = append(mods[:pos], append([]string{a}, mods[pos:]...)...)
-			if (a == "@Nullable" || a == "@CheckForNull") && rapid.IntRange(0, 2).Draw(t, "bothNullAnnotations") == 2 {
+			if nullAnnotations[a] && rapid.IntRange(0, 2).Draw(t, "bothNullAnnotations") == 2 {
 				// both nullability annotations on one method: it is still listed once
 				other := "@CheckForNull"
-				if a == other {
+				if strings.HasSuffix(a, "CheckForNull") {
 					other = "@Nullable"
 				}
 				mods = append(mods[:pos+1], append([]string{other}, mods[pos+1:]...)...)
@@ -393,6 +426,9 @@ func methodGen(abstractClass bool) *rapid.Generator[JMethod] {
 			m.OwnLine = pos == 0 && rapid.Bool().Draw(t, "ownLine")
 		}
 		m.Mods = mods
+		if rapid.IntRange(0, 5).Draw(t, "generic") == 5 && !pbt.Excluded("generic_method") {
+			m.Generic = true
+		}
 		maxParams := rapid.SampledFrom([]int{0, 1, 1, 2, 2, 5}).Draw(t, "maxParams")
 		m.Params = rapid.SliceOfN(paramGen, 0, maxParams).Draw(t, "params")
 		for i := range m.Params {
@@ -418,13 +454,19 @@ func methodGen(abstractClass bool) *rapid.Generator[JMethod] {
 }
 
 func retExpr(t *rapid.T, ret string) string {
+	mention := func(pool, mentions []string) []string {
+		if pbt.Excluded("return_mentions_null") {
+			return pool
+		}
+		return append(append([]string{}, pool...), mentions...)
+	}
 	switch ret {
 	case "String", "Object":
-		return rapid.SampledFrom(refExprs).Draw(t, "expr")
+		return rapid.SampledFrom(mention(refExprs, refMentions)).Draw(t, "expr")
 	case "int":
-		return rapid.SampledFrom([]string{"zero", "count"}).Draw(t, "expr")
+		return rapid.SampledFrom(mention([]string{"zero", "count"}, intMentions)).Draw(t, "expr")
 	case "boolean":
-		return rapid.SampledFrom([]string{"flag", "true"}).Draw(t, "expr")
+		return rapid.SampledFrom(mention([]string{"flag", "true"}, boolMentions)).Draw(t, "expr")
 	}
 	return "bare"
 }
@@ -433,6 +475,7 @@ func classGen(layout string) *rapid.Generator[JClass] {
 	return rapid.Custom(func(t *rapid.T) JClass {
 		cl := JClass{Layout: layout, Pkg: rapid.SampledFrom(javaPkgs).Draw(t, "pkg")}
 		cl.Name = rapid.SampledFrom(baseNames).Draw(t, "base") + rapid.SampledFrom(suffixes).Draw(t, "suffix")
+		cl.Name = rapid.SampledFrom(prefixes).Draw(t, "prefix") + cl.Name + rapid.SampledFrom(tails).Draw(t, "tail")
 		abstract := rapid.IntRange(0, 3).Draw(t, "abstractClass") == 3
 		var mods []string
 		if rapid.IntRange(0, 4).Draw(t, "packagePrivateClass") < 4 {
@@ -452,6 +495,18 @@ func classGen(layout string) *rapid.Generator[JClass] {
 			}
 			used[cl.Methods[j].Name] = true
 		}
+		// fields and initialiser blocks between the methods
+		extra := 0
+		for j := range cl.Methods {
+			for _, k := range rapid.SliceOfN(rapid.IntRange(0, len(otherMembers)-1), 0, 2).Draw(t, "membersBefore") {
+				extra++
+				text := otherMembers[k]
+				if strings.Contains(text, "%d") {
+					text = fmt.Sprintf(text, extra)
+				}
+				cl.Methods[j].Before = append(cl.Methods[j].Before, text)
+			}
+		}
 		return cl
 	})
 }
@@ -464,6 +519,15 @@ func genEval(t *rapid.T) EvalCase {
 		if !seen[cl.Pkg+"."+cl.Name] {
 			seen[cl.Pkg+"."+cl.Name] = true
 			c.Classes = append(c.Classes, cl)
+		}
+	}
+	// the same class (simple name, methods) once more in another package
+	if rapid.IntRange(0, 3).Draw(t, "twin") == 3 {
+		twin := c.Classes[rapid.IntRange(0, len(c.Classes)-1).Draw(t, "twinOf")]
+		twin.Pkg = rapid.SampledFrom(javaPkgs).Draw(t, "twinPkg")
+		if !seen[twin.Pkg+"."+twin.Name] {
+			seen[twin.Pkg+"."+twin.Name] = true
+			c.Classes = append(c.Classes, twin)
 		}
 	}
 	c.Cli = rapid.IntRange(0, 9).Draw(t, "cli") == 9
@@ -494,6 +558,20 @@ func exprText(kind string) string {
 		return "flag"
 	case "true":
 		return "true"
+	case "nullGuard":
+		return `value != null ? value : "d"`
+	case "nullText":
+		return `"null"`
+	case "nullIdent":
+		return "nullable"
+	case "nullArgCmp":
+		return "String.valueOf(value == null)"
+	case "eqNull":
+		return "value == null"
+	case "neNull":
+		return "value != null && flag"
+	case "nullCount":
+		return "value == null ? 0 : count"
 	}
 	panic("unknown expression kind " + kind)
 }
@@ -513,11 +591,22 @@ func (cl JClass) render() string {
 	var b strings.Builder
 	fmt.Fprintf(&b, "package %s;\n\n", cl.Pkg)
 	imports := map[string]bool{}
+	need := func(text string) {
+		for _, a := range []string{"Nullable", "CheckForNull"} {
+			if strings.HasPrefix(text, "@"+a+" ") || text == "@"+a || text == "@"+a+"()" {
+				imports["javax.annotation."+a] = true
+			}
+		}
+	}
 	for _, m := range cl.Methods {
 		for _, x := range m.Mods {
-			if x == "@Nullable" || x == "@CheckForNull" {
-				imports["javax.annotation."+x[1:]] = true
-			}
+			need(x)
+		}
+		for _, x := range m.Before {
+			need(x)
+		}
+		for _, p := range m.Params {
+			need(p.Ann)
 		}
 	}
 	var imps []string
@@ -535,8 +624,11 @@ func (cl JClass) render() string {
 		b.WriteString(strings.Join(cl.Mods, " ") + " ")
 	}
 	fmt.Fprintf(&b, "class %s {\n", cl.Name)
-	b.WriteString("    private static String value = \"v\";\n    private static boolean flag;\n    private static int count;\n")
+	b.WriteString("    private static String value = \"v\";\n    private static boolean flag;\n    private static int count;\n    private static String nullable = \"n\";\n")
 	for _, m := range cl.Methods {
+		for _, x := range m.Before {
+			b.WriteString("\n    " + x + "\n")
+		}
 		b.WriteString("\n    ")
 		mods := m.Mods
 		if m.OwnLine && len(mods) > 0 && strings.HasPrefix(mods[0], "@") {
@@ -548,7 +640,14 @@ func (cl JClass) render() string {
 		}
 		var ps []string
 		for _, p := range m.Params {
-			ps = append(ps, p.Type+" "+p.Name)
+			if p.Ann != "" {
+				ps = append(ps, p.Ann+" "+p.Type+" "+p.Name)
+			} else {
+				ps = append(ps, p.Type+" "+p.Name)
+			}
+		}
+		if m.Generic {
+			b.WriteString("<T> ")
 		}
 		fmt.Fprintf(&b, "%s %s(%s)", m.Ret, m.Name, strings.Join(ps, ", "))
 		if m.Abstract {
@@ -568,6 +667,16 @@ func (cl JClass) render() string {
 				}
 			case "ifelse":
 				fmt.Fprintf(&b, "        if (%s) {\n            %s\n        } else {\n            %s\n        }\n", s.Cond, returnText(s.Expr), returnText(s.Else))
+			case "forreturn":
+				fmt.Fprintf(&b, "        for (int i = 0; i < count; i++) {\n            if (%s) {\n                %s\n            }\n        }\n", s.Cond, returnText(s.Expr))
+			case "whilereturn":
+				fmt.Fprintf(&b, "        while (count > 3) {\n            count--;\n            if (%s) %s\n        }\n", s.Cond, returnText(s.Expr))
+			case "tryreturn":
+				fmt.Fprintf(&b, "        try {\n            count = count / 2;\n        } catch (RuntimeException e) {\n            %s\n        }\n", returnText(s.Expr))
+			case "switchreturn":
+				fmt.Fprintf(&b, "        switch (count) {\n        case 1:\n            %s\n        default:\n            break;\n        }\n", returnText(s.Expr))
+			default:
+				panic("unknown statement kind " + s.Kind)
 			}
 		}
 		if m.Last != "" {
@@ -625,7 +734,7 @@ func expectEval(c EvalCase) evalWant {
 				if x == "static" {
 					w.static++
 				}
-				if x == "@Nullable" || x == "@CheckForNull" {
+				if nullAnnotations[x] {
 					isNull = true
 				}
 			}
